@@ -375,8 +375,14 @@ def kw(ctx):
     lp = loops[0]
     ctx.check(call_name(lp.iter) == "sorted", lp, "keywords are visited in sorted order (surplus keywords are collected deterministically)")
     name_var = dotted(lp.target.elts[0])
-    chain = [s for s in lp.body if isinstance(s, ast.If)]
-    ctx.need(len(chain) == 1, "keyword loop body is not one if/elif/else chain")
+    skips = [x for s_ in lp.body for x in walk_local(s_) if isinstance(x, (ast.Continue, ast.Break))]
+    ctx.check(not skips, skips[0] if skips else lp, "every given keyword is bound, collected under '**' or rejected (no continue/break in the keyword loop)",
+              "the keyword loop skips some keywords (%s): they vanish from the canonical mapping" % (unparse(enclosing_stmt(skips[0]), 60) if skips else ""))
+    chain = [s for s in lp.body if isinstance(s, ast.If) and any("arg_dict" in unparse(t_) for t_ in ast.walk(s.test) if isinstance(t_, ast.Compare))]
+    if len(chain) != 1:
+        if skips:
+            return
+        ctx.need(False, "keyword loop body is not one if/elif/else chain")
     c = chain[0]
     t1 = c.test
     conj = t1.values if isinstance(t1, ast.BoolOp) and isinstance(t1.op, ast.And) else [t1]
@@ -417,13 +423,24 @@ def method(ctx):
     if sh.delegates and sh.class_loop is None:
         ctx.ok(f, "shape A: bound methods are handled by inspect.signature")
         return
-    ctx.need(t, "bound-method branch not found")
+    if not t:
+        narrowed = [n for n in nodes_of_type(f, ast.If) if "inspect.ismethod(func)" in unparse(n.test)]
+        ctx.bad(narrowed[0] if narrowed else f, "the instance is no longer put back for EVERY bound method (condition: %s): methods bound to different objects (e.g. an inherited classmethod "
+                "bound to two classes) get the same canonical mapping and share cache entries" % (unparse(narrowed[0].test) if narrowed else "none"), key=FI + "::filter_args::bound-method prepend")
+        return
     walk = _walk_loop(sh)
     L = _enum_list(walk) if walk is not None else "arg_names"
     a_args = [a for a in t[0].body if isinstance(a, ast.Assign) and "args" in stores_to(a)]
     a_names = [a for a in t[0].body if isinstance(a, ast.Assign) and L in stores_to(a)]
     ctx.check(bool(a_args) and "func.__self__" in unparse(a_args[0].value) and isinstance(a_args[0].value, ast.BinOp) and dotted(a_args[0].value.right) == "args", a_args[0] if a_args else t[0],
               "for bound methods the instance is prepended to the positional values")
+    if sh.class_loop is not None and a_names and isinstance(a_names[0].value, ast.BinOp) and isinstance(a_names[0].value.left, ast.List) and a_names[0].value.left.elts:
+        selfn = dotted(a_names[0].value.left.elts[0])
+        po = [n_ for n_, d_ in sh.list_domain.items() if d_ == {"POSITIONAL_ONLY"}]
+        marked = [a for a in t[0].body if isinstance(a, (ast.Assign, ast.Expr)) and any(p_ in unparse(a) for p_ in po) and selfn in unparse(a)]
+        ctx.check(bool(po) and bool(marked), marked[0] if marked else t[0], "the instance parameter is bound by Python already: its name is treated as positional-only (a keyword of that name goes to **kwargs)",
+                  "the name of the instance parameter (%s) is not marked positional-only: for `def m(self, **kw)` the valid call obj.m(self=3) overwrites the instance in the canonical "
+                  "mapping, so calls on different objects share a cache key" % selfn, key=FI + "::filter_args::instance parameter is positional-only")
     ctx.check(bool(a_names) and isinstance(a_names[0].value, ast.BinOp) and dotted(a_names[0].value.right) == L and isinstance(a_names[0].value.left, ast.List), a_names[0] if a_names else t[0],
               "and its parameter name is prepended to the walk list (both or neither)", "the instance is prepended to args but its name is not prepended to %s" % L)
 
@@ -457,7 +474,32 @@ def ignore(ctx):
         ctx.check(items == {"*": "args", "**": "kwargs"}, r, "callables without a Python signature keep all values under '*' and '**'")
 
 
+def signature_fresh(ctx):
+    """The signature walked is inspect.signature(func) of *this* function object, obtained at call time."""
+    f = ctx.repo.func(FI, "filter_args")
+    d = [a for a in nodes_of_type(f, ast.Assign) if "arg_sig" in stores_to(a)]
+    ctx.need(d, "arg_sig definition not found")
+    for a in d:
+        v = a.value
+        ok = isinstance(v, ast.Call) and call_name(v) == "inspect.signature" and dotted(v.args[0]) == "func"
+        if not ok and isinstance(v, ast.Call):
+            # a helper is fine if it simply returns inspect.signature(<its parameter>)
+            for callee in ctx.res.resolve_call(v):
+                rets = nodes_of_type(callee, ast.Return)
+                p0 = callee.args.args[0].arg if callee.args.args else None
+                ok = bool(rets) and all(isinstance(r.value, ast.Call) and call_name(r.value) == "inspect.signature" and dotted(r.value.args[0]) == p0 for r in rets) and dotted(v.args[0]) == "func"
+        ctx.check(ok, a, "the signature is inspect.signature(func), computed for this function object at call time",
+                  "the signature comes from %s: a remembered signature of another function object (same code, other defaults/closure) can be used" % unparse(v))
+    m = ctx.repo.mod(FI)
+    for st in m.tree.body:
+        if isinstance(st, ast.Assign) and isinstance(st.value, (ast.Dict,)) and not st.value.keys:
+            name = stores_to(st)[0]
+            writers = [q for q, fn in m.funcs.items() for n in ast.walk(fn) if isinstance(n, ast.Subscript) and isinstance(n.ctx, ast.Store) and dotted(n.value) == name]
+            ctx.check(not writers, st, "module-level dict %s is not used as a cache by a function" % name, "module-level dict %s is filled by %s: canonicalisation depends on earlier calls" % (name, writers))
+
+
 def run(ctx):
+    ctx.run("C07.SIGNATURE", "R-WHO", signature_fresh)
     ctx.run("C07.KINDS", "R-TABLE", kinds)
     ctx.run("C07.LOCKSTEP", "R-DUAL", lockstep)
     ctx.run("C07.POSITIONAL", "R-FLOW", positional)
